@@ -231,7 +231,16 @@ func (t *Type) IsSimpleType() bool {
 
 func ParseType(vt reflect.Type, def string) (*Type, error) {
 	var i int
-	return doParseType(vt, def, &i, true)
+	ret, err := doParseType(vt, def, &i, true)
+	if err != nil {
+		return nil, err
+	}
+
+	/* nothing may follow a complete type descriptor */
+	if tk, _ := readToken(def, &i, true); tk != "" {
+		return nil, ESyntax(i-len(tk), def, "unexpected token after type descriptor")
+	}
+	return ret, nil
 }
 
 func isident(c byte) bool {
